@@ -120,7 +120,7 @@ func (s *sgen) playScenario(id int, dt string, ncli int, steps []scenStep, fp *f
 	// by the `subfault` scenarios (fp.step < 0), which skip this phase for the faulted client
 	if fp != nil && fp.step == createStep {
 		// the fault hits the request that CREATES the datatype; the sync below is the creator's retry
-		if s.emit(s.w.stepFaultSync(0, 0, fp.k, fp.mode, cls)) {
+		if s.faultedSync(0, 0, fp, cls) {
 			return logs, nil, false
 		}
 	}
@@ -132,7 +132,7 @@ func (s *sgen) playScenario(id int, dt string, ncli int, steps []scenStep, fp *f
 	logs[createStep] = s.w.kit.Mongo.Log()
 	for c := 1; c < ncli; c++ {
 		if fp != nil && fp.step == -c {
-			if s.emit(s.w.stepFaultSync(c, c, fp.k, fp.mode, cls)) {
+			if s.faultedSync(c, c, fp, cls) {
 				return logs, nil, false
 			}
 		}
@@ -152,7 +152,7 @@ func (s *sgen) playScenario(id int, dt string, ncli int, steps []scenStep, fp *f
 			}
 			hung = s.emit(s.w.stepCall(st.c, st.m, a))
 		} else if fp != nil && fp.step == si {
-			hung = s.emit(s.w.stepFaultSync(st.c, st.c, fp.k, fp.mode, cls))
+			hung = s.faultedSync(st.c, st.c, fp, cls)
 		} else {
 			s.w.kit.Mongo.ResetLog()
 			s.hold++
@@ -184,6 +184,21 @@ func (s *sgen) playScenario(id int, dt string, ncli int, steps []scenStep, fp *f
 	}
 	s.out(J{"k": "send", "id": id, "quiescent": true, "final": final}, J{})
 	return logs, final, true
+}
+
+// faultedSync: the faulted exchange of a scenario.  Modes "fail"/"crash": a database command fails / the database is gone
+// and the server restarts.  Mode "lost": the server dies right AFTER the request was committed and before the response
+// leaves — the request is processed completely, the client never sees the response, the server restarts.
+func (s *sgen) faultedSync(c, r int, fp *faultPoint, cls string) bool {
+	if fp.mode == "lost" {
+		s.hold++
+		hung := s.emit(s.w.stepSync(c, []int{r}, "drop", s.hold, nil))
+		if !hung {
+			_ = s.w.kit.Restart()
+		}
+		return hung
+	}
+	return s.emit(s.w.stepFaultSync(c, r, fp.k, fp.mode, cls))
 }
 
 // stepFaultSync: one single-pack sync of datatype r of client c during which the k-th data command
@@ -283,6 +298,9 @@ func runDbFault(seed uint64, cases, from int, out func(cmd, obs J), statsPath st
 			for k := 1; k <= len(logs[si]); k++ {
 				points = append(points, faultPoint{si, k, "fail"}, faultPoint{si, k, "crash"})
 			}
+			if len(logs[si]) > 0 {
+				points = append(points, faultPoint{si, len(logs[si]) + 1, "lost"})
+			}
 		}
 		budget := 10
 		if thorough {
@@ -308,6 +326,18 @@ func runDbFault(seed uint64, cases, from int, out func(cmd, obs J), statsPath st
 					pi = commit[r.intn(len(commit))]
 				} else if len(cr) > 0 {
 					pi = cr[r.intn(len(cr))]
+				}
+			}
+			if !thorough && (b == 3 || b == 4) {
+				// two faults of every scenario are lost responses of ordinary syncs (committed, never answered)
+				var lost []int
+				for i, p := range points {
+					if p.mode == "lost" && p.step >= 0 {
+						lost = append(lost, i)
+					}
+				}
+				if len(lost) > 0 {
+					pi = lost[r.intn(len(lost))]
 				}
 			}
 			fp := points[pi]
